@@ -658,10 +658,7 @@ def f_i64_const_2 : CFunc := { params := [], body := [
 def f_i64_const_3 : CFunc := { params := [], body := [
     .assign (.reg 0 .i64) (.lit 9223372036854775807),
     .ret (.reg 0 .i64)] }
-/-- `i64.const -9223372036854775808`  ⇒  R0.i64 = -9223372036854775808; return R0.i64; -/
-def f_i64_const_4 : CFunc := { params := [], body := [
-    .assign (.reg 0 .i64) (.un .neg (.lit 9223372036854775808)),
-    .ret (.reg 0 .i64)] }
+-- i64_const_4 (i64.const -9223372036854775808): UNMODELLED: integer constant 9223372036854775808 is not representable in long long (C11 6.4.4.1p6: it has no type)   C: val_t R0; R0.i64 = -9223372036854775808; return R0.i64;
 /-- `i64.const 4294967296`  ⇒  R0.i64 = 4294967296; return R0.i64; -/
 def f_i64_const_5 : CFunc := { params := [], body := [
     .assign (.reg 0 .i64) (.lit 4294967296),
@@ -671,5 +668,5 @@ def f_i64_const_6 : CFunc := { params := [], body := [
     .assign (.reg 0 .i64) (.un .neg (.lit 4294967297)),
     .ret (.reg 0 .i64)] }
 
-def table : List (String × CFunc) := [("i32_add", f_i32_add), ("i32_sub", f_i32_sub), ("i32_mul", f_i32_mul), ("i32_div_s", f_i32_div_s), ("i32_div_u", f_i32_div_u), ("i32_rem_s", f_i32_rem_s), ("i32_rem_u", f_i32_rem_u), ("i32_and", f_i32_and), ("i32_or", f_i32_or), ("i32_xor", f_i32_xor), ("i32_shl", f_i32_shl), ("i32_shr_s", f_i32_shr_s), ("i32_shr_u", f_i32_shr_u), ("i32_rotl", f_i32_rotl), ("i32_rotr", f_i32_rotr), ("i32_eq", f_i32_eq), ("i32_ne", f_i32_ne), ("i32_lt_s", f_i32_lt_s), ("i32_lt_u", f_i32_lt_u), ("i32_gt_s", f_i32_gt_s), ("i32_gt_u", f_i32_gt_u), ("i32_le_s", f_i32_le_s), ("i32_le_u", f_i32_le_u), ("i32_ge_s", f_i32_ge_s), ("i32_ge_u", f_i32_ge_u), ("i32_eqz", f_i32_eqz), ("i32_clz", f_i32_clz), ("i32_ctz", f_i32_ctz), ("i32_popcnt", f_i32_popcnt), ("select_i32", f_select_i32), ("i64_add", f_i64_add), ("i64_sub", f_i64_sub), ("i64_mul", f_i64_mul), ("i64_div_s", f_i64_div_s), ("i64_div_u", f_i64_div_u), ("i64_rem_s", f_i64_rem_s), ("i64_rem_u", f_i64_rem_u), ("i64_and", f_i64_and), ("i64_or", f_i64_or), ("i64_xor", f_i64_xor), ("i64_shl", f_i64_shl), ("i64_shr_s", f_i64_shr_s), ("i64_shr_u", f_i64_shr_u), ("i64_rotl", f_i64_rotl), ("i64_rotr", f_i64_rotr), ("i64_eq", f_i64_eq), ("i64_ne", f_i64_ne), ("i64_lt_s", f_i64_lt_s), ("i64_lt_u", f_i64_lt_u), ("i64_gt_s", f_i64_gt_s), ("i64_gt_u", f_i64_gt_u), ("i64_le_s", f_i64_le_s), ("i64_le_u", f_i64_le_u), ("i64_ge_s", f_i64_ge_s), ("i64_ge_u", f_i64_ge_u), ("i64_eqz", f_i64_eqz), ("i64_clz", f_i64_clz), ("i64_ctz", f_i64_ctz), ("i64_popcnt", f_i64_popcnt), ("select_i64", f_select_i64), ("i32_wrap_i64", f_i32_wrap_i64), ("i64_extend_i32_s", f_i64_extend_i32_s), ("i64_extend_i32_u", f_i64_extend_i32_u), ("i32_load_o0", f_i32_load_o0), ("i32_load_o3", f_i32_load_o3), ("i64_load_o0", f_i64_load_o0), ("i64_load_o3", f_i64_load_o3), ("i32_load8_s_o0", f_i32_load8_s_o0), ("i32_load8_s_o3", f_i32_load8_s_o3), ("i32_load8_u_o0", f_i32_load8_u_o0), ("i32_load8_u_o3", f_i32_load8_u_o3), ("i32_load16_s_o0", f_i32_load16_s_o0), ("i32_load16_s_o3", f_i32_load16_s_o3), ("i32_load16_u_o0", f_i32_load16_u_o0), ("i32_load16_u_o3", f_i32_load16_u_o3), ("i64_load8_s_o0", f_i64_load8_s_o0), ("i64_load8_s_o3", f_i64_load8_s_o3), ("i64_load8_u_o0", f_i64_load8_u_o0), ("i64_load8_u_o3", f_i64_load8_u_o3), ("i64_load16_s_o0", f_i64_load16_s_o0), ("i64_load16_s_o3", f_i64_load16_s_o3), ("i64_load16_u_o0", f_i64_load16_u_o0), ("i64_load16_u_o3", f_i64_load16_u_o3), ("i64_load32_s_o0", f_i64_load32_s_o0), ("i64_load32_s_o3", f_i64_load32_s_o3), ("i64_load32_u_o0", f_i64_load32_u_o0), ("i64_load32_u_o3", f_i64_load32_u_o3), ("i32_store_o0", f_i32_store_o0), ("i32_store_o3", f_i32_store_o3), ("i64_store_o0", f_i64_store_o0), ("i64_store_o3", f_i64_store_o3), ("i32_store8_o0", f_i32_store8_o0), ("i32_store8_o3", f_i32_store8_o3), ("i32_store16_o0", f_i32_store16_o0), ("i32_store16_o3", f_i32_store16_o3), ("i64_store8_o0", f_i64_store8_o0), ("i64_store8_o3", f_i64_store8_o3), ("i64_store16_o0", f_i64_store16_o0), ("i64_store16_o3", f_i64_store16_o3), ("i64_store32_o0", f_i64_store32_o0), ("i64_store32_o3", f_i64_store32_o3), ("i32_const_0", f_i32_const_0), ("i32_const_1", f_i32_const_1), ("i32_const_2", f_i32_const_2), ("i32_const_3", f_i32_const_3), ("i32_const_4", f_i32_const_4), ("i32_const_5", f_i32_const_5), ("i64_const_0", f_i64_const_0), ("i64_const_1", f_i64_const_1), ("i64_const_2", f_i64_const_2), ("i64_const_3", f_i64_const_3), ("i64_const_4", f_i64_const_4), ("i64_const_5", f_i64_const_5), ("i64_const_6", f_i64_const_6)]
+def table : List (String × CFunc) := [("i32_add", f_i32_add), ("i32_sub", f_i32_sub), ("i32_mul", f_i32_mul), ("i32_div_s", f_i32_div_s), ("i32_div_u", f_i32_div_u), ("i32_rem_s", f_i32_rem_s), ("i32_rem_u", f_i32_rem_u), ("i32_and", f_i32_and), ("i32_or", f_i32_or), ("i32_xor", f_i32_xor), ("i32_shl", f_i32_shl), ("i32_shr_s", f_i32_shr_s), ("i32_shr_u", f_i32_shr_u), ("i32_rotl", f_i32_rotl), ("i32_rotr", f_i32_rotr), ("i32_eq", f_i32_eq), ("i32_ne", f_i32_ne), ("i32_lt_s", f_i32_lt_s), ("i32_lt_u", f_i32_lt_u), ("i32_gt_s", f_i32_gt_s), ("i32_gt_u", f_i32_gt_u), ("i32_le_s", f_i32_le_s), ("i32_le_u", f_i32_le_u), ("i32_ge_s", f_i32_ge_s), ("i32_ge_u", f_i32_ge_u), ("i32_eqz", f_i32_eqz), ("i32_clz", f_i32_clz), ("i32_ctz", f_i32_ctz), ("i32_popcnt", f_i32_popcnt), ("select_i32", f_select_i32), ("i64_add", f_i64_add), ("i64_sub", f_i64_sub), ("i64_mul", f_i64_mul), ("i64_div_s", f_i64_div_s), ("i64_div_u", f_i64_div_u), ("i64_rem_s", f_i64_rem_s), ("i64_rem_u", f_i64_rem_u), ("i64_and", f_i64_and), ("i64_or", f_i64_or), ("i64_xor", f_i64_xor), ("i64_shl", f_i64_shl), ("i64_shr_s", f_i64_shr_s), ("i64_shr_u", f_i64_shr_u), ("i64_rotl", f_i64_rotl), ("i64_rotr", f_i64_rotr), ("i64_eq", f_i64_eq), ("i64_ne", f_i64_ne), ("i64_lt_s", f_i64_lt_s), ("i64_lt_u", f_i64_lt_u), ("i64_gt_s", f_i64_gt_s), ("i64_gt_u", f_i64_gt_u), ("i64_le_s", f_i64_le_s), ("i64_le_u", f_i64_le_u), ("i64_ge_s", f_i64_ge_s), ("i64_ge_u", f_i64_ge_u), ("i64_eqz", f_i64_eqz), ("i64_clz", f_i64_clz), ("i64_ctz", f_i64_ctz), ("i64_popcnt", f_i64_popcnt), ("select_i64", f_select_i64), ("i32_wrap_i64", f_i32_wrap_i64), ("i64_extend_i32_s", f_i64_extend_i32_s), ("i64_extend_i32_u", f_i64_extend_i32_u), ("i32_load_o0", f_i32_load_o0), ("i32_load_o3", f_i32_load_o3), ("i64_load_o0", f_i64_load_o0), ("i64_load_o3", f_i64_load_o3), ("i32_load8_s_o0", f_i32_load8_s_o0), ("i32_load8_s_o3", f_i32_load8_s_o3), ("i32_load8_u_o0", f_i32_load8_u_o0), ("i32_load8_u_o3", f_i32_load8_u_o3), ("i32_load16_s_o0", f_i32_load16_s_o0), ("i32_load16_s_o3", f_i32_load16_s_o3), ("i32_load16_u_o0", f_i32_load16_u_o0), ("i32_load16_u_o3", f_i32_load16_u_o3), ("i64_load8_s_o0", f_i64_load8_s_o0), ("i64_load8_s_o3", f_i64_load8_s_o3), ("i64_load8_u_o0", f_i64_load8_u_o0), ("i64_load8_u_o3", f_i64_load8_u_o3), ("i64_load16_s_o0", f_i64_load16_s_o0), ("i64_load16_s_o3", f_i64_load16_s_o3), ("i64_load16_u_o0", f_i64_load16_u_o0), ("i64_load16_u_o3", f_i64_load16_u_o3), ("i64_load32_s_o0", f_i64_load32_s_o0), ("i64_load32_s_o3", f_i64_load32_s_o3), ("i64_load32_u_o0", f_i64_load32_u_o0), ("i64_load32_u_o3", f_i64_load32_u_o3), ("i32_store_o0", f_i32_store_o0), ("i32_store_o3", f_i32_store_o3), ("i64_store_o0", f_i64_store_o0), ("i64_store_o3", f_i64_store_o3), ("i32_store8_o0", f_i32_store8_o0), ("i32_store8_o3", f_i32_store8_o3), ("i32_store16_o0", f_i32_store16_o0), ("i32_store16_o3", f_i32_store16_o3), ("i64_store8_o0", f_i64_store8_o0), ("i64_store8_o3", f_i64_store8_o3), ("i64_store16_o0", f_i64_store16_o0), ("i64_store16_o3", f_i64_store16_o3), ("i64_store32_o0", f_i64_store32_o0), ("i64_store32_o3", f_i64_store32_o3), ("i32_const_0", f_i32_const_0), ("i32_const_1", f_i32_const_1), ("i32_const_2", f_i32_const_2), ("i32_const_3", f_i32_const_3), ("i32_const_4", f_i32_const_4), ("i32_const_5", f_i32_const_5), ("i64_const_0", f_i64_const_0), ("i64_const_1", f_i64_const_1), ("i64_const_2", f_i64_const_2), ("i64_const_3", f_i64_const_3), ("i64_const_5", f_i64_const_5), ("i64_const_6", f_i64_const_6)]
 end WaVerif.Gen.C03
